@@ -22,7 +22,7 @@ LoggedPost(p) == /\ names' = p.names /\ sale' = p.sale /\ bids' = LBids(p.bids)
 Lbl(e) == [f \in (DOMAIN e) \ {"post", "x"} |-> e[f]]
 
 SpecAct(e) ==
-  CASE e.a = "register" -> Register(e.s, e.n, e.len, e.tld, e.y, e.data, e.prim)
+  CASE e.a = "register" -> Register(e.s, e.n, e.len, e.tld, e.y, e.data, e.prim, e.yp)
     [] e.a = "list"     -> List(e.s, e.n, e.p)
     [] e.a = "delist"   -> Delist(e.s, e.n)
     [] e.a = "buy"      -> Buy(e.s, e.n)
